@@ -29,7 +29,8 @@ EXTRA = {
     'cref_sed': (['cat', '\\usepackage[poorman]{cleveref}\\YYCleverefInput{/verif/vf/data/c.sed}', T('A'), ' ',
                   ['G', '\\cref{x}', 'eqs\\.\\(1\\)–\\(2\\)y'], ' ', T('B'), ' ',
                   ['G', '\\crefrange{a}{b}', 'items\\(3\\)to\\(4\\)'], ' ', T('C'), ' ',
-                  ['G', '\\cref{x}', 'eqs\\.\\(1\\)–\\(2\\)y'], ' ', T('D')], {}),
+                  ['G', '\\cref{x}', 'eqs\\.\\(1\\)–\\(2\\)y'], ' ', T('D'), ' ',
+                  ['G', '\\crefrange{a}{b}', 'items\\(3\\)to\\(4\\)'], ' ', T('E')], {}),
     'proof_de': (['cat', T('A'), '\n', ['proof', ['cat', '\n', T('B'), '\n'], None, 'Beweis'], '\n', T('C')],
                  {'pack': 'amsthm', 'lang': 'de'}),
 }
